@@ -201,13 +201,21 @@ func (service *TranslatorService) DecryptSearchable(ctx context.Context, data, h
 		dataToDecrypt = append(hash, data...)
 	}
 	logger.Debugln("Decrypt AcraStruct")
-	hashPart, containerData := hmac.ExtractHashAndData(dataToDecrypt)
-	if hashPart == nil {
-		return nil, ErrCantDecrypt
-	}
 	accessContext := base.NewAccessContext(base.WithClientID(clientID))
 	dataCtx := base.SetAccessContextToContext(ctx, accessContext)
 	dataContext := &base.DataProcessorContext{Keystore: service.data.Keystorage, Context: dataCtx}
+	hashPart, containerData := hmac.ExtractHashAndData(dataToDecrypt)
+	if hashPart == nil {
+		// check poison records
+		logger.WithField(logging.FieldKeyEventCode, logging.EventCodeErrorTranslatorCantDecryptAcraStruct).
+			Errorln("Can't split ciphertext to hash and encrypted data")
+		_, _, poisonErr := service.poisonDetector.OnColumn(dataCtx, dataToDecrypt)
+		if poisonErr != nil {
+			logger.WithField(logging.FieldKeyEventCode, logging.EventCodeErrorDecryptorCantCheckPoisonRecord).WithError(poisonErr).Errorln("Can't check for poison record with AcraStruct, possible missing Poison record decryption key")
+			return nil, ErrCantDecrypt
+		}
+		return nil, ErrCantDecrypt
+	}
 	handler, err := crypto.GetHandlerByEnvelopeID(crypto.AcraStructEnvelopeID)
 	if err != nil {
 		return nil, ErrCantDecrypt
